@@ -88,9 +88,23 @@ def gen_expr(rng, types, want, depth):
                 e = {'op': 'lit', 'v': sv(v)}
         return {'op': 'case', 'c': c, 't': t, 'e': e}
     if numeric:
-        op = rng.choice(['add', 'sub', 'mul', 'neg'] + (['div'] if want == 'dbl' else []))
+        op = rng.choice(['add', 'sub', 'mul', 'neg', 'mod'] + (['div'] if want == 'dbl' else []))
         if op == 'neg':
             return {'op': 'neg', 'e': gen_expr(rng, types, want, depth - 1)}
+        if op == 'mod':
+            # the remainder: int % int is an int, anything else a double; half of the divisors are literals (zero among them)
+            if want == 'int':
+                ta = tb = 'int'
+            else:
+                ta, tb = rng.choice([('dbl', 'dbl'), ('int', 'dbl'), ('dbl', 'int')])
+            if rng.random() < .5:
+                d = rng.choice([v for v in DIVISORS if v is None or (isinstance(v, int) if tb == 'int' else True)])
+                if tb == 'dbl' and isinstance(d, int):
+                    d = float(d)
+                b = {'op': 'lit', 'v': sv(d)}
+            else:
+                b = gen_expr(rng, types, tb, depth - 1)
+            return {'op': 'mod', 'a': gen_expr(rng, types, ta, depth - 1), 'b': b}
         if op == 'div':
             return {'op': 'div', 'a': gen_expr(rng, types, rng.choice(['int', 'dbl']), depth - 1),
                     'b': {'op': 'lit', 'v': sv(rng.choice(DIVISORS))}}
@@ -162,7 +176,7 @@ def to_column(ast, names, cache=None):
             return w
         return w.otherwise(val('e'))
     a, b = sub('a'), sub('b')
-    return {'add': lambda: a + b, 'sub': lambda: a - b, 'mul': lambda: a * b, 'div': lambda: a / b,
+    return {'add': lambda: a + b, 'sub': lambda: a - b, 'mul': lambda: a * b, 'div': lambda: a / b, 'mod': lambda: a % b,
             'eq': lambda: a == b, 'ne': lambda: a != b, 'lt': lambda: a < b, 'le': lambda: a <= b,
             'gt': lambda: a > b, 'ge': lambda: a >= b, 'and': lambda: a & b, 'or': lambda: a | b}[op]()
 
